@@ -349,6 +349,7 @@ func init() {
 		registerReplay("C11/io", func(c ioCase) *fail { return runIOCase(c, nil) })
 		registerReplay("C11/io-socket", func(c ioCase) *fail { return runIOCase(c, nil) })
 		registerReplay("C11/concurrent-reads", runConcReadCase)
+		registerReplay("C11/held-writes", runHeldWriteCase)
 		registerReplay("C11/cut", func(c ioCutCase) *fail { _, f := runIOCutCase(c); return f })
 	})
 }
@@ -474,6 +475,18 @@ func TestC11(t *testing.T) {
 	}, func(c concReadCase) *fail {
 		h.Case(evid.HashJSON(c), c.EOFReads > 0, "concurrent-reads")
 		return runConcReadCase(c)
+	})
+	// small and large writes held inside the backend while other requests are
+	// served: what the backend stores is what the caller passed (engine of C18)
+	rapidCases(h, "held-writes", env.PerShard(env.Pick(600, 30000)), func(rt *rapid.T) heldWriteCase {
+		c := heldWriteCase{Traffic: rapid.IntRange(1, 6).Draw(rt, "traffic"), Conns: rapid.IntRange(1, 2).Draw(rt, "conns")}
+		for i := rapid.IntRange(1, 8).Draw(rt, "nheld"); i > 0; i-- {
+			c.Sizes = append(c.Sizes, rapid.SampledFrom([]int{1, 2, 8, 16, 24, 40, 41, 48, 49, 57, 64, 100, 1000, 5000}).Draw(rt, "size"))
+		}
+		return c
+	}, func(c heldWriteCase) *fail {
+		h.Case(evid.HashJSON(c), len(c.Sizes) >= 2, "held-writes")
+		return runHeldWriteCase(c)
 	})
 	// the connection dies inside a chunk (real sockets)
 	{
